@@ -34,11 +34,26 @@ import (
 
 var sites []rt.Site
 
+// nilSites: the nilable-types registrations (batches nBatches..2*nBatches-1, appended after the
+// batches of the two older instantiations, whose PRNG streams therefore do not move).
+var nilSites []rt.NilSite
+
 func init() {
 	// the generated packages registered their sites in their init functions (package
 	// initialisation order is fixed by the import paths); order them by family
 	sites = append(sites, rt.Sites...)
 	sort.SliceStable(sites, func(i, j int) bool { return sites[i].Family < sites[j].Family })
+	nilSites = append(nilSites, rt.NilSites...)
+	sort.SliceStable(nilSites, func(i, j int) bool {
+		a, b := nilSites[i], nilSites[j]
+		if a.Family != b.Family {
+			return a.Family < b.Family
+		}
+		if a.Member != b.Member {
+			return a.Member < b.Member
+		}
+		return a.Sub < b.Sub
+	})
 }
 
 const nBatches = 16
@@ -70,8 +85,164 @@ func genTwo(c1 *rt.Cx) *rt.Cx {
 		c2.U[k] = c1.U[k] + "#2"
 		c2.Y[k] = c2.V[k] + "'"
 	}
+	c2.TagV, c2.TagY = c2.V, c2.Y
 	c1.Other, c2.Other = c2, c1
 	return c2
+}
+
+// ---- nil / zero argument values (nilable-types instantiation) -------------------------------
+
+func nilBatchSites(b int) []int {
+	var out []int
+	for i := range nilSites {
+		if i%nBatches == b-nBatches {
+			out = append(out, i)
+		}
+	}
+	return out
+}
+
+// nilRandom: PRNG masks per call site after the enumerated ones.
+func nilRandom(tier string) int {
+	if tier == "thorough" {
+		return 96
+	}
+	return 6
+}
+
+// nilCases: cases of one nilable call site with p value positions: no position nil, every
+// position nil, exactly position 1..p nil, then PRNG subsets.
+func nilCases(tier string, p int) int { return 2 + p + nilRandom(tier) }
+
+// nilLocate maps case i of a nil batch to (call site, assignment j).
+func nilLocate(tier string, mine []int, i int) (*rt.NilSite, int) {
+	for _, si := range mine {
+		st := &nilSites[si]
+		n := nilCases(tier, len(st.Kinds))
+		if i < n {
+			return st, i
+		}
+		i -= n
+	}
+	panic("case index beyond the batch")
+}
+
+func shiftMask(z [rt.MaxPos + 1]bool, p int) (out [rt.MaxPos + 1]bool) {
+	for k := 1; k <= p; k++ {
+		if z[k] {
+			out[k%p+1] = true
+		}
+	}
+	return out
+}
+
+func countMask(z [rt.MaxPos + 1]bool) (n int) {
+	for _, b := range z {
+		if b {
+			n++
+		}
+	}
+	return n
+}
+
+// runNilCase: one case of the nilable-types instantiation. The site is instantiated with
+// nil-able / zero-able types (st.Kinds); the mask of the case decides which positions carry
+// nil / the zero value, every other position a value carrying its position tag. Two
+// constructions interleaved exactly as in runCase; construction 2 carries the mask shifted by
+// one position.
+func runNilCase(w *vrt.W, mine []int, i int) {
+	st, j := nilLocate(w.Tier, mine, i)
+	r := w.Rand(i)
+	p := len(st.Kinds)
+	c := &rt.Cx{W: w, Idx: i, Variant: "nilable-types", Gen: 1, ForkSeed: j, Nilable: true, Kinds: st.Kinds, Sub: st.Sub}
+	what := ""
+	switch {
+	case j == 0:
+		what = "no_position_nil"
+	case j == 1:
+		what = "every_position_nil"
+		for k := 1; k <= p; k++ {
+			c.ZV[k], c.ZY[k] = true, true
+		}
+	case j <= p+1:
+		// exactly position j-1; the fork alternatives carry no nil (odd j) or nil at the next position
+		what = "exactly_one_position_nil"
+		c.ZV[j-1] = true
+		if j%2 == 0 {
+			c.ZY[(j-1)%p+1] = true
+		}
+	default:
+		what = "random_positions_nil"
+		den := 2 + r.IntN(3)
+		for k := 1; k <= p; k++ {
+			c.ZV[k] = r.IntN(den) == 0
+			c.ZY[k] = r.IntN(den) == 0
+		}
+		if countMask(c.ZV) == 0 {
+			c.ZV[1+r.IntN(p)] = true
+		}
+	}
+	for k := 1; k <= rt.MaxPos; k++ {
+		if j == 0 {
+			c.TagV[k] = fmt.Sprintf("a%d", k)
+		} else {
+			c.TagV[k] = fmt.Sprintf("a%d_%04x", k, r.Uint32()&0xffff)
+		}
+		c.TagY[k] = c.TagV[k] + "'"
+	}
+	c2 := &rt.Cx{W: w, Idx: i, Variant: c.Variant, Gen: 2, ForkSeed: j + 1, Nilable: true, Kinds: st.Kinds, Sub: st.Sub}
+	c2.ZV, c2.ZY = shiftMask(c.ZV, p), shiftMask(c.ZY, p)
+	for k := 1; k <= rt.MaxPos; k++ {
+		c2.TagV[k] = c.TagV[k] + "#2"
+		c2.TagY[k] = c2.TagV[k] + "'"
+	}
+	c.Other, c2.Other = c2, c
+	for _, g := range []*rt.Cx{c, c2} {
+		g.NNil, g.NNilY = countMask(g.ZV), countMask(g.ZY)
+		for k := 1; k <= p; k++ {
+			g.V[k] = rt.Render(st.Kinds[k-1], g.TagV[k], g.ZV[k])
+			g.Y[k] = rt.Render(st.Kinds[k-1], g.TagY[k], g.ZY[k])
+		}
+	}
+	first, second := c, c2
+	if j%2 == 1 {
+		first, second = c2, c
+	}
+	o1, o2 := first, second
+	if (j/2)%2 == 1 {
+		o1, o2 = second, first
+	}
+	witness := func() any {
+		return map[string]any{"member": st.Member, "builder_methods": st.Sub, "instantiation": c.Variant, "mask": what,
+			"constructed": []int{first.Gen, second.Gen}, "observed": []int{o1.Gen, o2.Gen, o1.Gen},
+			"construction_1": c.Witness(), "construction_2": c2.Witness()}
+	}
+	rt.ResetCase()
+	w.Begin(i, st.Member)
+	w.Guard(i, witness, func() {
+		first.Run(func() { st.Fn(first) })
+		second.Run(func() { st.Fn(second) })
+		o1.Run(o1.Observe)
+		o2.Run(o2.Observe)
+		o1.Run(o1.Observe)
+	})
+	w.Done(i)
+	w.Add("nil.cases", 1)
+	w.Add("nil.cases."+what, 1)
+	w.Add("nil.sites."+st.Family, 1)
+	if c.NNilY > 0 {
+		w.Add("nil.cases.fork_alternative_nil", 1)
+	}
+	for _, g := range []*rt.Cx{c, c2} {
+		if g.Member != st.Member {
+			g.Member = st.Member
+			g.Fail("site-table", "the generated site registered itself under another name: harness defect")
+		}
+	}
+	if what == "exactly_one_position_nil" && j == 2+p/2 && w.WantSample() && p >= 3 && r.IntN(8) == 0 {
+		w.Sample(map[string]any{"member": st.Member, "builder_methods": st.Sub, "positions": st.N, "instantiation": c.Variant, "values": c.V[1 : p+1],
+			"f_received": c.Calls, "observed": c.Checks, "second_construction_values": c2.V[1 : p+1], "g_received": c2.Calls})
+	}
 }
 
 func runCase(w *vrt.W, mine []int, i int) {
@@ -151,6 +322,7 @@ func runCase(w *vrt.W, mine []int, i int) {
 		}
 		c.Y[k] = c.V[k] + "'"
 	}
+	c.TagV, c.TagY = c.V, c.Y
 	c2 := genTwo(c)
 	// both constructions are made before either is observed; construction order and
 	// observation order alternate, the construction observed first is observed again at the end
@@ -218,6 +390,30 @@ func nontrivialMembers() int {
 	return len(seen)
 }
 
+// nilFamilies: the families whose defining equation does not itself inspect the argument
+// values; each must have a nilable-types instantiation — written out here independently of the
+// generator.
+func nilFamilies() []string {
+	out := []string{"fp.Tuple(accessors)", "fp.Labelled(accessors)", "as.Tuple", "as.Labelled", "as.HList", "as.HListLabelled", "as.Func", "as.Tupled",
+		"as.Supplier", "as.Curried", "as.UnTupled", "curried.Func", "curried.Revert", "curried.Compose", "curried.Flip", "curried.FlipApply", "curried.SlipL",
+		"hlist.Of", "hlist.Case", "hlist.Lift", "hlist.Rift", "hlist.Reverse", "product.TupleFromHList", "product.LabelledFromHList", "product.Tuple",
+		"product.Lift", "product.Flatten", "fp.Compose", "fp.Func.ApplyFirst", "fp.Func.ApplyLast", "fp.Id", "fn1.Merge", "unit.Func",
+		"try.Func", "future.Func", "try.Curried", "future.Map"}
+	for _, m := range []string{"option", "try", "future"} {
+		for _, f := range []string{"LiftA", "LiftM", "Flap", "Method", "FlatMethod", "Applicative", "Chain"} {
+			out = append(out, m+"."+f)
+		}
+	}
+	for _, m := range []string{"option", "try"} {
+		for _, f := range []string{"Map", "FlatMap"} {
+			out = append(out, m+"."+f)
+		}
+	}
+	return out
+}
+
+var nilKinds = []string{"slice", "map", "ptr", "func", "error", "any", "iface", "struct", "string", "int", "bool"}
+
 // forkFamilies: the families whose members return something that can be applied more than
 // once (curried functions, partial applications, lifted functions, builders); each must have
 // been forked (rt.Fork) — written out here independently of the generator.
@@ -236,8 +432,15 @@ func forkFamilies() []string {
 func main() {
 	vrt.Main(vrt.Config{
 		Property: "C14",
-		Batches:  func(string) int { return nBatches },
+		Batches:  func(string) int { return 2 * nBatches },
 		Cases: func(tier string, b int) int {
+			if b >= nBatches {
+				n := 0
+				for _, si := range nilBatchSites(b) {
+					n += nilCases(tier, len(nilSites[si].Kinds))
+				}
+				return n
+			}
 			return len(batchSites(b)) * 2 * assignments(tier)
 		},
 		Run: func(w *vrt.W) {
@@ -252,6 +455,13 @@ func main() {
 			// (about 3.5 * 2^p for operands that first differ at position p); 2^27 is far above
 			// that, an observation beyond it would be abandoned and counted, not judged
 			rt.ObsBudget = 1 << 27
+			if w.Batch >= nBatches {
+				mine := nilBatchSites(w.Batch)
+				for i := w.From; i < w.To; i++ {
+					runNilCase(w, mine, i)
+				}
+				return
+			}
 			mine := batchSites(w.Batch)
 			for i := w.From; i < w.To; i++ {
 				runCase(w, mine, i)
@@ -309,6 +519,46 @@ func main() {
 			fl["fork.below_first_level"] = 1000
 			fl["fork.order.first_finished_first"] = 1000
 			fl["fork.order.second_finished_first"] = 1000
+			// nil / zero argument values: every nilable call site ran every enumerated mask; per family
+			// a case with nil at exactly position p was constructed for every value position p of
+			// every call site; every kind was created nil and non-nil, and nil at each of the
+			// positions 1..9; the recording functions received nil arguments; forks carried nil
+			var nCases, nPos int64
+			famPos, famCases := map[string]int64{}, map[string]int64{}
+			for _, s := range nilSites {
+				p := int64(len(s.Kinds))
+				nCases += int64(nilCases(tier, len(s.Kinds)))
+				nPos += p
+				famPos[s.Family] += p
+				famCases[s.Family] += int64(nilCases(tier, len(s.Kinds)))
+			}
+			fl["sites.nilable-types"] = nCases
+			fl["nil.cases"] = nCases
+			fl["nil.cases.no_position_nil"] = int64(len(nilSites))
+			fl["nil.cases.every_position_nil"] = int64(len(nilSites))
+			fl["nil.cases.exactly_one_position_nil"] = nPos
+			fl["nil.cases.random_positions_nil"] = int64(len(nilSites) * nilRandom(tier))
+			fl["nil.cases.fork_alternative_nil"] = int64(len(nilSites))
+			for _, f := range nilFamilies() {
+				if famPos[f] == 0 {
+					fl["nil.member_positions."+f+"(family-has-no-nilable-instantiation)"] = 1
+					continue
+				}
+				fl["nil.member_positions."+f] = famPos[f]
+				fl["nil.sites."+f] = famCases[f]
+			}
+			for _, k := range nilKinds {
+				fl["nil.kind."+k] = 1000
+				fl["nil.kind_nonnil."+k] = 1000
+				for p := 1; p <= 9; p++ {
+					fl[fmt.Sprintf("nilkp.%02d.%s", p, k)] = 1
+				}
+			}
+			fl["nil.f_calls_with_nil_argument"] = 10000
+			fl["nil.f_calls_with_only_nil_arguments"] = 1000
+			fl["nil.f_received_nil_arguments"] = 20000
+			fl["nil.results_compared_with_nil_argument"] = 5000
+			fl["nil.forks_with_nil"] = 10000
 			return fl
 		},
 		Finish: func(tier string, m *vrt.Merged, cov map[string]any) {
@@ -329,13 +579,26 @@ func main() {
 					missing = append(missing, s.Member)
 				}
 			}
+			kindsAt := map[string][]string{}
 			if cs, ok := cov["counters"].(map[string]int64); ok {
 				for k := range cs {
 					if strings.HasPrefix(k, "pair.") {
 						delete(cs, k)
 					}
+					if strings.HasPrefix(k, "nilkp.") {
+						// nilkp.<position>.<kind> -> coverage.nil_kinds_by_position
+						parts := strings.SplitN(k, ".", 3)
+						kindsAt[parts[1]] = append(kindsAt[parts[1]], parts[2])
+						delete(cs, k)
+					}
 				}
 			}
+			for _, v := range kindsAt {
+				sort.Strings(v)
+			}
+			cov["nil_kinds_by_position"] = kindsAt
+			cov["nilable_call_sites"] = len(nilSites)
+			cov["nilable_random_masks_per_call_site"] = nilRandom(tier)
 			cov["pairs_executed"] = executed
 			cov["pairs_executed_count"] = nexec
 			cov["pairs_generated_count"] = ngen
